@@ -10,7 +10,7 @@ use crate::spec::*;
 
 fn cfg(d: &mut Dna, explicit_bounds: bool) -> GenCfg {
     let mut c = GenCfg::full();
-    c.kinds = vec![Kind::Struct, Kind::Enum];
+    c.kinds = vec![Kind::Struct, Kind::Enum, Kind::Union];
     c.trait_pct = 30;
     c.attr_pct = 50;
     c.bounds = explicit_bounds;
@@ -160,6 +160,11 @@ fn delegated<'a>(s: &'a TypeSpec, x: Tr, target: Option<&str>) -> Vec<&'a FieldS
     for (vi, v) in s.variants.iter().enumerate() {
         for f in &v.fields {
             let take = match primary {
+                // unions: Debug, PartialEq and Hash work on the bytes and delegate to no field; Clone is `*self` and needs
+                // every field to be Copy; Default builds the designated field only
+                Tr::Debug | Tr::PartialEq | Tr::Hash if s.kind == Kind::Union => false,
+                Tr::Clone if s.kind == Kind::Union => true,
+                Tr::Default if s.kind == Kind::Union => (v.fields.len() == 1 || f.attrs.iter().any(|a| a.tr == Tr::Default)) && f.default_expect.is_none(),
                 Tr::Copy | Tr::Eq => true,
                 Tr::Default => {
                     let is_default_variant = s.kind != Kind::Enum || s.variants.len() == 1 || v.attrs.iter().any(|a| a.tr == Tr::Default);
